@@ -77,6 +77,34 @@ Proof.
   inversion Hi as [|? ? Hm _]; subst. cbn [forallb]. rewrite Hm. reflexivity.
 Qed.
 
+Lemma git_side : forall s ex inc rela d,
+  patterns s = ex ++ inc ->
+  all_excluded s = forallb (fun m => is_excluded (m_pat m)) (patterns s) ->
+  Forall lit_wf (patterns s) ->
+  Forall (fun m => is_excluded (m_pat m) = true) ex ->
+  Forall (fun m => is_excluded (m_pat m) = false) inc ->
+  match_pathspec (git_items s) rela d =
+  (existsb (fun m => matches_b m rela d) inc || all_excluded s) && negb (existsb (fun m => matches_b m rela d) ex).
+Proof.
+  intros s ex inc rela d Hpat Hall Hwf He Hi.
+  assert (Hwf' : Forall lit_wf (ex ++ inc)) by (rewrite <- Hpat; exact Hwf).
+  unfold git_items. rewrite Hpat.
+  assert (Hne : map item_of (ex ++ inc) ++ (if all_excluded s then [match_all_item] else []) <> [] \/
+                (ex ++ inc = [] /\ all_excluded s = false)).
+  { destruct (ex ++ inc) eqn:E; [|left; discriminate].
+    destruct (all_excluded s); [left; discriminate|right; split; reflexivity]. }
+  destruct Hne as [Hne|[Hnil Hae]].
+  - unfold match_pathspec.
+    destruct (map item_of (ex ++ inc) ++ (if all_excluded s then [match_all_item] else [])) eqn:E; [contradiction|].
+    rewrite <- E. clear E.
+    rewrite !do_match_app, !(do_match_items _ _ _ _ Hwf'), !existsb_app.
+    destruct (existsb_excl_true ex rela d He) as [E1 E2].
+    destruct (existsb_excl_false inc rela d Hi) as [E3 E4].
+    rewrite E1, E2, E3, E4. cbn [orb]. rewrite Bool.orb_false_r.
+    destruct (all_excluded s); unfold do_match; cbn; rewrite ?Bool.orb_false_r, ?Bool.orb_true_r; reflexivity.
+  - rewrite Hall, Hpat, Hnil in Hae. cbn in Hae. discriminate.
+Qed.
+
 Lemma select_literal : forall s ex inc rela d,
   rela <> [] -> cpl s = O -> patterns s = ex ++ inc ->
   all_excluded s = forallb (fun m => is_excluded (m_pat m)) (patterns s) ->
